@@ -636,7 +636,8 @@ func (w *World) registrations() []Registration {
 		regMeth[f.Obj] = sig.Params().Len() == 1
 	}
 	var out []Registration
-	resolve := func(r *Registration, v ast.Expr) {
+	var resolve func(r *Registration, v ast.Expr)
+	resolve = func(r *Registration, v ast.Expr) {
 		switch a := unparen(v).(type) {
 		case *ast.FuncLit:
 			r.Lit = a
@@ -647,6 +648,15 @@ func (w *World) registrations() []Registration {
 		case *ast.Ident:
 			if fn, ok := info.Uses[a].(*types.Func); ok {
 				r.Fn = w.FuncOf(fn)
+				return
+			}
+			// a local that is assigned once (`parseInfix := p.parseInfixExpression`, bound outside a loop of registrations)
+			for _, f := range w.Funcs("parser") {
+				if f.Decl.Pos() <= a.Pos() && a.Pos() < f.Decl.End() {
+					if def := singleDefinition(info, f, a); def != ast.Expr(a) {
+						resolve(r, def)
+					}
+				}
 			}
 		}
 	}
